@@ -5,7 +5,7 @@ package codon
 // C18: combining codon tables adds or averages usage and keeps the code.
 //
 // verif:bound C18 add clause: two full 64-codon tables of any of the 25 codes with 128 symbolic 64-bit weights in [-2^40, 2^40]: every weight is the sum, letters / triplets / start and stop codons are the first table's
-// verif:bound C18 compromise clause: one amino acid with 2 (quick) / 2..3 (thorough) synonymous codons, weights of both tables enumerated over 0..3 (quick) / 0..5 with 2 codons and 0..2 with 3 codons (thorough) with at least one positive weight per table, cut-off a symbolic real in [-1, 2]
+// verif:bound C18 compromise clause: one amino acid with 2 (quick) / 2..3 (thorough) synonymous codons, weights of both tables enumerated over 0..3 (quick) / 0..5 with 2 codons and 0..2 with 3 codons (thorough) with at least one positive weight per table, cut-off a symbolic real in [-1, 2]; the second table lists its codons in the same or in the opposite order
 // verif:bound C18 composition clause: compromise of two mini tables (weights enumerated 0..3 | 0..4 with 2 codons and 0..3 with 3 codons, cut-off in {0, 0.2, 0.5, 1}) handed to Optimize: an error when no codon survives, otherwise the emitted codon has both shares at or above the cut-off
 // verif:assume C18 compromise: the shares int(float64(w)/float64(t)*10000) are computed concretely with real float64 arithmetic (weights are concrete on each path); only the cut-off is symbolic and int(10000*cutOff) is abstracted to real arithmetic with truncation (rounding of that product is outside the claim)
 // verif:bound C18 compromise-after-reweighting clause: two mini tables (weights 0..2) combined, the first re-weighted in place from one of three alanine sequences and combined again: equal to combining fresh tables holding the same weights (cut-off 0, 0.2, 0.5); everything enumerated, executed by the engine without a solver query
@@ -62,11 +62,34 @@ func c18Mini(w []int) Table {
 	return Table{[]string{"ATG"}, []string{"TAA"}, []AminoAcid{{"A", cs}}}
 }
 
+// c18MiniRev: the same table as c18Mini(w) with its codons listed in the opposite order
+func c18MiniRev(w []int) Table {
+	t := c18Mini(w)
+	cs := t.AminoAcids[0].Codons
+	for i, j := 0, len(cs)-1; i < j; i, j = i+1, j-1 {
+		cs[i], cs[j] = cs[j], cs[i]
+	}
+	return t
+}
+
+func c18WeightOf(t Table, triplet string) int {
+	for _, c := range t.AminoAcids[0].Codons {
+		if c.Triplet == triplet {
+			return c.Weight
+		}
+	}
+	return -1
+}
+
 func Harness_C18_Compromise() {
 	vRealMode()
 	k := 2 + vChoice(vTier(1, 2))
 	hi := vTier(4, 6)
 	if k == 3 {
+		hi = 3
+	}
+	rev := vChoice(2) == 1 // the second table lists the same codons in another order (weights 0..2 then)
+	if rev {
 		hi = 3
 	}
 	w1 := make([]int, k)
@@ -83,6 +106,9 @@ func Harness_C18_Compromise() {
 	}
 	cut := vFloat(-1, 2)
 	a, b := c18Mini(w1), c18Mini(w2)
+	if rev {
+		b = c18MiniRev(w2)
+	}
 	var r, rs Table
 	var err, errs error
 	panicked := vPanics(func() { r, err = CompromiseCodonTable(a, b, cut); rs, errs = CompromiseCodonTable(b, a, cut) })
@@ -104,7 +130,7 @@ func Harness_C18_Compromise() {
 	for i := 0; i < k; i++ {
 		got := r.AminoAcids[0].Codons[i].Weight
 		vAssert(r.AminoAcids[0].Codons[i].Triplet == a.AminoAcids[0].Codons[i].Triplet, "triplets-kept")
-		vAssert(vEqInt(got, rs.AminoAcids[0].Codons[i].Weight), "symmetric-in-the-two-tables")
+		vAssert(vEqInt(got, c18WeightOf(rs, a.AminoAcids[0].Codons[i].Triplet)), "symmetric-in-the-two-tables")
 		// exact shares scaled to 10000: s = floor(10000*w/t); the float computation in the code may
 		// differ by one unit from the exact floor except where the share is exactly 0 or 10000
 		fs1, fs2 := 10000*w1[i]/t1, 10000*w2[i]/t2
